@@ -3,7 +3,7 @@
 //! outside the target changes.  Fonts: built by recipe, loaded and edited, loaded from crafted
 //! UFOs whose contents.plist / layercontents.plist hold unusual paths.
 use crate::c08::common::*;
-use crate::c08::{fresh_sandbox, make_prior, modify, prepare_loaded, run_save, Prepared, Prior, PRIORS};
+use crate::c08::{fresh_sandbox, make_prior, modify, prepare_loaded, prior_for, run_save, Prepared, Prior};
 use crate::util::*;
 use norad::{DataRequest, Font};
 use std::collections::BTreeSet;
@@ -256,7 +256,7 @@ pub fn case(seed: u64, idx: u64, out: &Path, verbose: bool, force_variant: Optio
         modify(&mut p, &mut r);
     }
     let in_place = p.loaded_from.is_some() && r.chance(1, 3);
-    let prior = if in_place { Prior::Absent } else { PRIORS[((idx / 3) % 6) as usize] };
+    let prior = if in_place { Prior::Absent } else { prior_for(idx / 3) };
     let target_rel: Vec<String> = if in_place { split_rel("src.ufo") } else { split_rel("zone/t.ufo") };
     if !in_place {
         make_prior(&sb.join(target_rel.join("/")), prior, &mut r);
@@ -281,7 +281,13 @@ pub fn case(seed: u64, idx: u64, out: &Path, verbose: bool, force_variant: Optio
         let got = subtree(&run.after, &troot);
         let want = subtree(&run.reftree, &troot);
         if got != want {
-            fail_tree.push(format!("target differs from a save to a fresh path: {}", snap_diff(&want, &got).join(", ")));
+            let stale: Vec<&String> = got.keys().filter(|k| !want.contains_key(*k)).collect();
+            let missing: Vec<&String> = want.keys().filter(|k| !got.contains_key(*k)).collect();
+            let changed: Vec<&String> = want.iter().filter(|(k, v)| got.get(*k).map(|g| g != *v).unwrap_or(false)).map(|(k, _)| k).collect();
+            fail_tree.push(format!(
+                "target differs from a save of the same font to a fresh path: remains of the previous contents / unexpected entries {:?}; missing {:?}; different bytes {:?}",
+                stale, missing, changed
+            ));
         }
         let f = &p.font;
         let is_file = |rel: &str| matches!(got.get(rel), Some(Some(_)));
